@@ -113,6 +113,16 @@ where
         }
     }
 
+    /// Wake every task blocked in [`LocalStreamIds::poll_alloc_sid`], e.g. when the connection
+    /// is closed: the caller re-polls and observes the connection error.
+    fn wake_all(&mut self) {
+        for wakers in &mut self.wakers {
+            for waker in wakers.drain(..) {
+                waker.wake();
+            }
+        }
+    }
+
     pub fn revise_max_streams(
         &mut self,
         zero_rtt_rejected: bool,
@@ -207,6 +217,14 @@ where
     /// but it is very very hard to happen.
     pub fn poll_alloc_sid(&self, cx: &mut Context<'_>, dir: Dir) -> Poll<Option<StreamId>> {
         self.0.lock().unwrap().poll_alloc_sid(cx, dir)
+    }
+
+    /// Wake every task waiting in [`ArcLocalStreamIds::poll_alloc_sid`].
+    ///
+    /// Called when the connection is closed or failed, so that the waiting tasks poll again
+    /// and observe the error instead of sleeping forever.
+    pub fn wake_all(&self) {
+        self.0.lock().unwrap().wake_all();
     }
 
     pub fn revise_max_streams(
